@@ -417,6 +417,12 @@ func (c *Client) BlockResults(ctx context.Context, height *int64) (*ctypes.Resul
 		return nil, fmt.Errorf("results are for height %d, not for the requested height %d", res.Height, h)
 	}
 
+	for i, r := range res.TxsResults {
+		if r == nil {
+			return nil, fmt.Errorf("tx result #%d is missing", i)
+		}
+	}
+
 	// Update the light client if we're behind.
 	nextHeight := h + 1
 	trustedBlock, err := c.updateLightClientIfNeededTo(ctx, &nextHeight)
